@@ -539,9 +539,11 @@ class Arbiter:
                     # halt: raising here would escape from halt() itself
                     if exitcode == self.WORKER_BOOT_ERROR and not self.stopping:
                         reason = "Worker failed to boot."
+                        self.stopping = True
                         raise HaltServer(reason, self.WORKER_BOOT_ERROR)
                     if exitcode == self.APP_LOAD_ERROR and not self.stopping:
                         reason = "App failed to load."
+                        self.stopping = True
                         raise HaltServer(reason, self.APP_LOAD_ERROR)
 
                     if exitcode > 0:
